@@ -200,7 +200,7 @@ pub fn gen_spec(t: &mut Tape, name: &str) -> (Spec, GenInfo) {
 // C14: colliding pairs and their twins
 // -------------------------------------------------------------------------------------------------
 
-pub const COLLISION_KINDS: [&str; 12] = [
+pub const COLLISION_KINDS: [&str; 14] = [
     "identical spelling",
     "short form written out",
     "long form in upper case",
@@ -213,6 +213,8 @@ pub const COLLISION_KINDS: [&str; 12] = [
     "same long form, different short forms",
     "long form of one is the short form of the other",
     "same-kind pair separated by a declaration of the other kind",
+    "letter case of a declaration changed",
+    "common command in another letter case",
 ];
 
 fn render_nodes(nodes: &[(String, bool)], query: bool) -> String {
@@ -323,6 +325,35 @@ pub fn gen_ambiguous_kind(t: &mut Tape, name: &str, force_kind: Option<usize>) -
             let v1 = format!("{}{}", &up[..cut1], up[cut1..].to_ascii_lowercase());
             let v2 = format!("{}{}", &up[..cut2], up[cut2..].to_ascii_lowercase());
             (format!("{}:{}{}", v1, b, q), format!("{}:{}{}", v2, b, q), format!("{}Z:{}{}", v2, b, q), true)
+        }
+        12 => {
+            // ABCd vs AbCd / abcD ...: the long forms are equal ignoring case (the short forms need not be)
+            let mut v: Vec<char> = a_l.chars().collect();
+            let letters: Vec<usize> = (0..v.len()).filter(|i| v[*i].is_ascii_alphabetic()).collect();
+            let flips = t.range(1, letters.len().min(3));
+            for _ in 0..flips {
+                let i = letters[t.below(letters.len())];
+                v[i] = if v[i].is_ascii_lowercase() { v[i].to_ascii_uppercase() } else { v[i].to_ascii_lowercase() };
+            }
+            let flipped: String = v.into_iter().collect();
+            (format!("{}:{}{}", a_l, b, q), format!("{}:{}{}", flipped, b, q), format!("{}Z:{}{}", flipped, b, q), true)
+        }
+        13 => {
+            // *ABC vs *Abc: common commands are compared ignoring case at run time. The first letter
+            // stays upper case so that the short form of the twin ('*' + capitals) is still a header
+            let up = a.to_ascii_uppercase();
+            let mut v: Vec<char> = up.chars().collect();
+            let letters: Vec<usize> = (1..v.len()).filter(|i| v[*i].is_ascii_alphabetic()).collect();
+            if letters.is_empty() {
+                return None;
+            }
+            let flips = t.range(1, letters.len());
+            for _ in 0..flips {
+                let i = letters[t.below(letters.len())];
+                v[i] = v[i].to_ascii_lowercase();
+            }
+            let mixed: String = v.into_iter().collect();
+            (format!("*{}{}", up, q), format!("*{}{}", mixed, q), format!("*{}Z{}", mixed, q), true)
         }
         11 => {
             // command, query, command on one node (or the mirror): the middle declaration is added below
